@@ -911,3 +911,28 @@ Lemma pow0_comp x y : x == y -> pow0 x == pow0 y.
 Proof. reflexivity. Qed.
 Lemma pow0_homog c x : 0 < c -> pow0 (c * c * x) == c * c * c * pow0 x.
 Proof. intros _. unfold pow0. ring. Qed.
+
+(* integer dtype: bca raises where float input of the same values and bc on the integers succeed *)
+Lemma int_bca_refuted (Phi PhiInv pow15 : Q -> Q) :
+  (forall x, 0 <= Phi x /\ Phi x <= 1) ->
+  exists rows hs alpha,
+    bootstrap_ci_dt Phi PhiInv pow15 DInt [] rows (Some hs) (AScalar alpha) MBca = Err /\
+    (exists d, bootstrap_ci_dt Phi PhiInv pow15 DFloat [] rows (Some hs) (AScalar alpha) MBca = Ok ([2%nat], d)) /\
+    (exists d, bootstrap_ci_dt Phi PhiInv pow15 DInt [] rows (Some hs) (AScalar alpha) MBc = Ok ([2%nat], d)).
+Proof.
+  intro Hr. exists [[Some 1]; [Some 2]; [Some 3]; [Some 4]; [Some 7]], [Some 3], (1#10).
+  split; [reflexivity|].
+  assert (G : forall m, m <> MQuantile -> exists d,
+            bootstrap_ci Phi PhiInv pow15 [] [[Some 1]; [Some 2]; [Some 3]; [Some 4]; [Some 7]] (Some [Some 3]) (AScalar (1#10)) m = Ok ([2%nat], d)).
+  { intros m Hm. unfold bootstrap_ci.
+    destruct (bootstrap_ci_bcx Phi PhiInv pow15 m [] [[Some 1]; [Some 2]; [Some 3]; [Some 4]; [Some 7]] (Some [Some 3]) (1#10)) as [[sh d]|] eqn:E.
+    - destruct (bootstrap_ci_bcx_ok _ _ _ _ _ _ _ _ _ _ Hm E) as (-> & _). exists d. destruct m; [congruence|reflexivity|reflexivity].
+    - exfalso. apply (bootstrap_ci_bcx_err _ _ _ _ _ _ _ _ Hm) in E. destruct E as (c & h & Hin & He).
+      simpl in Hin. destruct Hin as [Hin|[]]. injection Hin as <- <-.
+      destruct (ci_col_bcx_ok Phi PhiInv pow15 Hr m _ (Some 3) (1#10) Hm
+                  (ltac:(discriminate) : somes [Some 1; Some 2; Some 3; Some 4; Some 7] <> [])) as (? & ? & ? & ? & _ & E' & _).
+      unfold column in He. simpl in He. rewrite E' in He. discriminate. }
+  split.
+  - destruct (G MBca ltac:(discriminate)) as [d E]. exists d. exact E.
+  - destruct (G MBc ltac:(discriminate)) as [d E]. exists d. exact E.
+Qed.
